@@ -345,9 +345,13 @@ def _captured_index_validated(ctx, F, clo, idx_expr, n):
     k = e[3]
     # construction sites
     found = False
-    for i in F.inst:
-        if i.body is None or not i.local:
+    from .nf import NF
+    for i0 in F.inst:
+        if i0.body is None or not i0.local:
             continue
+        if not any(s["k"] == "assign" and s["r"]["k"] == "aggregate" and s["r"].get("ak") == "closure" and s["r"]["def"] == clo.defp for bl in i0.blocks for s in bl["s"]):
+            continue
+        i = NF(F, i0)          # the range checks may sit in a private helper called before the closure is built
         for bb, bl in enumerate(i.blocks):
             for si, s in enumerate(bl["s"]):
                 if s["k"] == "assign" and s["r"]["k"] == "aggregate" and s["r"].get("ak") == "closure" \
@@ -358,6 +362,8 @@ def _captured_index_validated(ctx, F, clo, idx_expr, n):
                     facts = facts_at(i, bb)
                     for u in up:
                         u = deep_strip(u)
+                        while u[0] == "cast":
+                            u = deep_strip(u[1])
                         lower = upper = False
                         for (ce, inf, _) in facts:
                             tv = truth(inf)
@@ -384,7 +390,7 @@ def _captured_index_validated(ctx, F, clo, idx_expr, n):
 
 def _same_closure(ty, clo):
     # closure type string of the aggregate vs the instance's name
-    return ty == "{closure@%s}" % clo.name
+    return ty.replace("::<", "<") == ("{closure@%s}" % clo.name).replace("::<", "<")
 
 
 def rule_c(ctx, cone=None, rid="C03.c", floor=6, scope="dispatch"):
